@@ -55,7 +55,7 @@ func main() {
 	if os.Args[1] == "--build-all" {
 		rc := &runCtx{work: filepath.Join(verifRoot, ".work", "setup"), bins: map[string]string{}}
 		os.MkdirAll(rc.work, 0o755)
-		for _, fl := range []string{"race", "ft", "plain"} {
+		for _, fl := range []string{"race", "ft", "plain", "fuzz"} {
 			if err := rc.build(fl); err != nil {
 				fmt.Fprintln(os.Stderr, err)
 				os.Exit(2)
